@@ -161,7 +161,7 @@ class Model:
         if kind == "request":
             if not stem.endswith("Request"):
                 stem += "Request"
-            part = stem.replace("Request", "")
+            part = stem[: -len("Request")]   # the suffix only: a name may contain "Request" elsewhere
             return part + "Request", part + "Response"
         if not stem.endswith("Notification"):
             stem += "Notification"
